@@ -43,7 +43,7 @@ class Case:
             u = os.path.join(tmp, "u.gaf")
             gen.write_text(u, "".join(l + "\n" for l in lines))
             o = os.path.join(tmp, "u.out")
-            tool("view", gaf_path=u, gfa=self.gfa, output=o, format="stable")
+            tool("view", allow_stdout=True, gaf_path=u, gfa=self.gfa, output=o, format="stable")
             conv = open(o).read().splitlines()
             lines = []
             for k, l in enumerate(conv):
@@ -96,7 +96,7 @@ class Case:
         out = os.path.join(self.tmp, "v.out")
         try:
             with watchdog(30):
-                tool("view", gaf_path=self.gaf, gfa=self.gfa, output=out, nodes=list(nodes), regions=list(regions), format=fmt)
+                tool("view", allow_stdout=True, gaf_path=self.gaf, gfa=self.gfa, output=out, nodes=list(nodes), regions=list(regions), format=fmt)
             return open(out).read().splitlines()
         except CommandLineError:
             return "none"
